@@ -365,4 +365,120 @@ theorem gridLoopC_eq (ds : List (Dim α)) : ∀ (xss : List (List α)) (i : Nat)
         rfl
 
 end
+/-! ## a closed-form sufficient bound: `Π_d max(1, naxes_d, npts_d) < 2³¹` -/
+
+theorem prod_filter_map (l : List Nat) (p : Nat → Bool) (f : Nat → Nat) :
+    ((l.filter p).map f).prod = (l.map fun i => if p i then f i else 1).prod := by
+  induction l with
+  | nil => rfl
+  | cons a l ih =>
+    by_cases h : p a = true
+    · simp [List.filter_cons, h, ih]
+    · simp [List.filter_cons, h, ih]
+
+theorem map_getD_range (l : List Nat) : (List.range l.length).map (fun i => l.getD i 0) = l := by
+  apply List.ext_getElem (by simp)
+  intro i h1 h2
+  simp [List.getD_eq_getElem?_getD, h2]
+
+/-- the number of columns is the product of the ranges with entry `dim` replaced by 1 -/
+theorem colsOf_eq_set_prod (R : List Nat) (dim : Nat) (hd : dim < R.length) :
+    colsOf R dim = (R.set dim 1).prod := by
+  unfold colsOf
+  rw [foldl_cols_eq, Nat.one_mul, prod_filter_map]
+  conv_rhs => rw [← map_getD_range (R.set dim 1)]
+  rw [List.length_set]
+  congr 1
+  apply List.map_congr_left
+  intro i hi
+  rw [getD_set]
+  by_cases h : i = dim
+  · subst h; simp [hd]
+  · have : ¬ (dim = i ∧ dim < R.length) := fun hh => h hh.1.symm
+    simp [h, this]
+
+theorem colsOf_append (P Q : List Nat) (a : Nat) : colsOf (P ++ a :: Q) P.length = P.prod * Q.prod := by
+  rw [colsOf_eq_set_prod _ _ (by simp)]
+  simp
+
+theorem prod_le_prod_max1 (P : List Nat) : P.prod ≤ (P.map (max 1)).prod := by
+  induction P with
+  | nil => simp
+  | cons a P ih =>
+    simp only [List.prod_cons, List.map_cons]
+    exact Nat.mul_le_mul (Nat.le_max_right 1 a) ih
+
+theorem prod_max1_pos (P : List Nat) : 0 < (P.map (max 1)).prod := by
+  induction P with
+  | nil => simp
+  | cons a P ih =>
+    simp only [List.prod_cons, List.map_cons]
+    exact Nat.mul_pos (by omega) ih
+
+theorem sizeBound_pos (ns ls : List Nat) : 0 < sizeBound ns ls := by
+  induction ns generalizing ls with
+  | nil => simp [sizeBound]
+  | cons a ns ih =>
+    cases ls with
+    | nil => simp [sizeBound]
+    | cons l ls =>
+      simp only [sizeBound]
+      exact Nat.mul_pos (by omega) (ih ls)
+
+theorem prod_le_sizeBound (ns ls : List Nat) (h : ns.length = ls.length) : ns.prod ≤ sizeBound ns ls := by
+  induction ns generalizing ls with
+  | nil => simp [sizeBound]
+  | cons a ns ih =>
+    cases ls with
+    | nil => simp at h
+    | cons l ls =>
+      simp only [List.prod_cons, sizeBound]
+      exact Nat.mul_le_mul (by omega) (ih ls (by simpa using h))
+
+theorem gridIdxSafe_of_bound_aux (Ls : List Nat) : ∀ (P N : List Nat) (B : Nat), N.length = Ls.length →
+    (P.map (max 1)).prod * sizeBound N Ls ≤ B → B < 2147483648 →
+    gridIdxSafe (P ++ N) P.length Ls = true := by
+  induction Ls with
+  | nil => intro P N B _ _ _; rfl
+  | cons l Ls ih =>
+    intro P N B hlen hB hlt
+    cases N with
+    | nil => simp at hlen
+    | cons a N' =>
+      have hlen' : N'.length = Ls.length := by simpa using hlen
+      simp only [sizeBound] at hB
+      have hP := prod_max1_pos P
+      have hS := sizeBound_pos N' Ls
+      have hm1 : 1 ≤ max 1 (max a l) := Nat.le_max_left _ _
+      have hml : max 1 l ≤ max 1 (max a l) := by omega
+      -- three monotonicity facts about the bound
+      have k1 : (P.map (max 1)).prod * sizeBound N' Ls ≤ (P.map (max 1)).prod * (max 1 (max a l) * sizeBound N' Ls) :=
+        Nat.mul_le_mul_left _ (Nat.le_mul_of_pos_left _ (by omega))
+      have k2 : max 1 (max a l) ≤ (P.map (max 1)).prod * (max 1 (max a l) * sizeBound N' Ls) :=
+        le_trans (Nat.le_mul_of_pos_right _ hS) (Nat.le_mul_of_pos_left _ hP)
+      have k3 : (P.map (max 1)).prod * max 1 l * sizeBound N' Ls
+          ≤ (P.map (max 1)).prod * (max 1 (max a l) * sizeBound N' Ls) := by
+        rw [Nat.mul_assoc]
+        exact Nat.mul_le_mul_left _ (Nat.mul_le_mul_right _ hml)
+      simp only [gridIdxSafe, Bool.and_eq_true, decide_eq_true_eq]
+      refine ⟨⟨?_, ?_⟩, ?_⟩
+      · rw [colsOf_append]
+        have := Nat.mul_le_mul (prod_le_prod_max1 P) (prod_le_sizeBound N' Ls hlen')
+        omega
+      · have : l ≤ max 1 (max a l) := by omega
+        omega
+      · have hset : (P ++ a :: N').set P.length l = (P ++ [l]) ++ N' := by simp
+        have hl1 : P.length + 1 = (P ++ [l]).length := by simp
+        rw [hset, hl1]
+        apply ih (P ++ [l]) N' B hlen' _ hlt
+        simp only [List.map_append, List.map_cons, List.map_nil, List.prod_append, List.prod_cons,
+          List.prod_nil, Nat.mul_one]
+        omega
+
+/-- **closed form**: if `Π_d max(1, naxes_d, npts_d) < 2³¹`, every section `grideval` flattens is safe -/
+theorem gridIdxSafe_of_sizeBound (naxes lens : List Nat) (hlen : naxes.length = lens.length)
+    (h : sizeBound naxes lens < 2147483648) : gridIdxSafe naxes 0 lens = true := by
+  have := gridIdxSafe_of_bound_aux lens [] naxes (sizeBound naxes lens) hlen (by simp) h
+  simpa using this
+
 end PsV
